@@ -9,6 +9,10 @@ a = next(i for i, l in enumerate(lines) if l.startswith('| change | property | f
 b = a
 while b < len(lines) and lines[b].startswith('|'):
     b += 1
-lines[a:b] = tab
+# the generator's output ends with a blank line and the totals line: drop the totals lines of earlier runs that follow the table
+import re as _re
+while b < len(lines) and (lines[b].strip() == '' or _re.match(r'^\d+ confirmed changes: ', lines[b])):
+    b += 1
+lines[a:b] = tab + ['']
 open(p, 'w').write('\n'.join(lines))
 print('table rows:', len(tab) - 2)
